@@ -974,3 +974,211 @@ def unsupported_heads(t):
       walk(u[1])
   walk(t)
   return sorted(found)
+
+
+# ------------------------------------------------------------------------------------------------
+# NEAR-MISS stream: annotation -> a value built to conform -> variants that differ from it in exactly one place.
+# Conforming / almost-conforming pairs discriminate far better than independent random (T, V) pairs.
+
+_NM_SCALARS = ["int", "float", "str", "bytes", "bool"]
+_NM_CONTAINERS = ["list", "set", "frozenset", "dict", "tuple", "Sequence"]
+_TUPLE_LIKE = ("tuple", "Sequence", "Iterable", "Container", "Collection")
+
+
+def _nm_leaf(r, hier):
+  x = r.random()
+  if x < 0.65:
+    return ("cls", r.choice(_NM_SCALARS), ())
+  if x < 0.85:
+    return ("cls", r.choice(hier.class_names()), ())
+  if x < 0.93:
+    return ("union", (("cls", r.choice(_NM_SCALARS), ()), NONE_T))
+  return ("union", (("cls", "int", ()), ("cls", "str", ())))
+
+
+def _nm_container(r, hier, hashable=False):
+  """C[X] with C a parameterised builtin container and X a leaf."""
+  c = r.choice(["frozenset", "tuple"] if hashable else _NM_CONTAINERS)
+  if c == "dict":
+    return ("cls", "dict", (("cls", r.choice(["str", "int"]), ()), _nm_leaf(r, hier)))
+  return ("cls", c, (_nm_leaf(r, hier),))
+
+
+def gen_near_miss_type(r, hier):
+  """(form name, annotation), biased to depth-2 forms."""
+  forms = ["Tuple[C[X], ...]", "Sequence[C[X]]", "Iterable[C[X]]", "Tuple[C[X], C[Y]]", "Dict[K, C[X]]",
+           "List[Tuple[X, Y]]", "List[C[X]]", "Set[Tuple[X, Y]]", "Mapping[K, Tuple[X, ...]]", "C[X]",
+           "Tuple[X, Y, Z]", "Optional[...]", "Union[...]"]
+  f = r.choice(forms)
+  def base(g):
+    if g == "Tuple[C[X], ...]":
+      return ("cls", "tuple", (_nm_container(r, hier),))
+    if g == "Sequence[C[X]]":
+      return ("cls", "Sequence", (_nm_container(r, hier),))
+    if g == "Iterable[C[X]]":
+      return ("cls", r.choice(["Iterable", "Container"]), (_nm_container(r, hier),))
+    if g == "Tuple[C[X], C[Y]]":
+      return ("ftuple", (_nm_container(r, hier), _nm_container(r, hier)))
+    if g == "Dict[K, C[X]]":
+      return ("cls", r.choice(["dict", "Mapping"]), (("cls", r.choice(["str", "int"]), ()), _nm_container(r, hier)))
+    if g == "List[Tuple[X, Y]]":
+      return ("cls", r.choice(["list", "Sequence", "MutableSequence"]), (("ftuple", (_nm_leaf(r, hier), _nm_leaf(r, hier))),))
+    if g == "List[C[X]]":
+      return ("cls", r.choice(["list", "MutableSequence"]), (_nm_container(r, hier),))
+    if g == "Set[Tuple[X, Y]]":
+      return ("cls", r.choice(["set", "frozenset", "AbstractSet"]),
+              (("ftuple", (("cls", r.choice(_NM_SCALARS), ()), ("cls", r.choice(_NM_SCALARS), ()))),))
+    if g == "Mapping[K, Tuple[X, ...]]":
+      return ("cls", "Mapping", (("cls", "str", ()), ("cls", "tuple", (_nm_leaf(r, hier),))))
+    if g == "C[X]":
+      return _nm_container(r, hier)
+    return ("ftuple", (_nm_leaf(r, hier), _nm_leaf(r, hier), _nm_leaf(r, hier)))
+  if f == "Optional[...]":
+    return f, ("union", (base(r.choice(forms[:11])), NONE_T))
+  if f == "Union[...]":
+    return f, ("union", (base(r.choice(forms[:11])), ("cls", r.choice(_NM_SCALARS), ())))
+  return f, base(f)
+
+
+def gen_conforming(r, hier, t):
+  """A value built to inhabit t, with 2-3 elements in every container; None if no such value is found.
+  Tuple-like formals get a tuple DISPLAY most of the time."""
+  k = t[0]
+  if k == "any":
+    return ("int",)
+  if k == "union":
+    opts = [o for o in t[1] if o != NONE_T] or list(t[1])
+    return gen_conforming(r, hier, r.choice(opts if r.random() < 0.85 else list(t[1])))
+  if k == "ftuple":
+    es = [gen_conforming(r, hier, a) for a in t[1]]
+    return None if any(e is None for e in es) else ("tuple", tuple(es))
+  if k in ("callable", "type"):
+    return val_matching_type(r, hier, t, 1)
+  name, args = t[1], t[2]
+  if name in ("int", "bool", "str", "bytes", "none", "bytearray"):
+    return (name,)
+  if name == "float":
+    return (r.choice(["float", "float", "int"]),)
+  if name == "complex":
+    return (r.choice(["complex", "float", "int"]),)
+  if name in hier.class_names():
+    return ("inst", r.choice([n for n in hier.class_names() if name in hier.mro[n]]))
+  if hier.is_proto(name):
+    ok = [n for n in hier.class_names() if set(hier.proto_attrs[name]) <= set(hier.attrs[n])]
+    return ("inst", r.choice(ok)) if ok else None
+  if not args:
+    return val_matching_type(r, hier, t, 1)
+  n = r.choice([2, 2, 3, 3, 1])
+  if name in ("dict", "Mapping", "MutableMapping"):
+    items = []
+    for _ in range(min(n, 2)):
+      a, b = gen_conforming(r, hier, args[0]), gen_conforming(r, hier, args[1])
+      if a is None or b is None or not hashable_val(a):
+        return None
+      items.append((a, b))
+    return ("dict", tuple(items))
+  kinds = {"list": ["list"], "set": ["set"], "frozenset": ["frozenset"], "tuple": ["tuple", "tuple", "tuple", "tupleof"],
+           "Sequence": ["tuple", "tuple", "list"], "MutableSequence": ["list"],
+           "Iterable": ["tuple", "tuple", "list", "set"], "Collection": ["tuple", "list"],
+           "Container": ["tuple", "tuple", "list"], "AbstractSet": ["set", "frozenset"], "MutableSet": ["set"]}
+  kd = r.choice(kinds.get(name, ["list"]))
+  es = [gen_conforming(r, hier, args[0]) for _ in range(n)]
+  if any(e is None for e in es):
+    return None
+  if kd in ("set", "frozenset") and not all(hashable_val(e) for e in es):
+    return None
+  return (kd, tuple(es))
+
+
+def _is_container(v):
+  return v[0] in ("list", "tuple", "set", "frozenset", "tupleof", "dict")
+
+
+def leaf_paths(v, pre=()):
+  """Paths (index tuples; dict items are addressed (i, 0|1)) to every leaf: a non-container or an empty container."""
+  k = v[0]
+  if k in ("list", "tuple", "set", "frozenset", "tupleof") and v[1]:
+    out = []
+    for i, e in enumerate(v[1]):
+      out += leaf_paths(e, pre + (i,))
+    return out
+  if k == "dict" and v[1]:
+    out = []
+    for i, (a, b) in enumerate(v[1]):
+      out += leaf_paths(a, pre + ((i, 0),)) + leaf_paths(b, pre + ((i, 1),))
+    return out
+  return [pre]
+
+
+def get_at(v, path):
+  for p in path:
+    v = v[1][p[0]][p[1]] if isinstance(p, tuple) else v[1][p]
+  return v
+
+
+def replace_at(v, path, new):
+  if not path:
+    return new
+  p = path[0]
+  if isinstance(p, tuple):
+    i, j = p
+    item = list(v[1][i])
+    item[j] = replace_at(item[j], path[1:], new)
+    return (v[0], v[1][:i] + (tuple(item),) + v[1][i + 1:])
+  return (v[0], v[1][:p] + (replace_at(v[1][p], path[1:], new),) + v[1][p + 1:])
+
+
+def container_paths(v, pre=()):
+  """Paths to every container node (including the root)."""
+  out = []
+  if _is_container(v):
+    out.append(pre)
+    if v[0] == "dict":
+      for i, (a, b) in enumerate(v[1]):
+        out += container_paths(a, pre + ((i, 0),)) + container_paths(b, pre + ((i, 1),))
+    else:
+      for i, e in enumerate(v[1]):
+        out += container_paths(e, pre + (i,))
+  return out
+
+
+def near_miss_variants(r, hier, v, cap=6):
+  """Variants of v differing in exactly one place: [(mutation kind, position label, variant)].
+  Positions: first / middle / LAST leaf (in display order), plus structural edits of one container."""
+  leaves = leaf_paths(v)
+  out = []
+  picks = []
+  if leaves:
+    picks.append(("last", leaves[-1]))
+    if len(leaves) > 1:
+      picks.append(("first", leaves[0]))
+    if len(leaves) > 2:
+      picks.append(("middle", leaves[len(leaves) // 2]))
+    if len(leaves) > 3:
+      picks.append(("random", r.choice(leaves[1:-1])))
+  for label, path in picks:
+    old = get_at(v, path)
+    cands = [(s,) for s in ("int", "float", "str", "bytes", "bool", "none") if (s,) != old]
+    cands += [("inst", n) for n in hier.class_names()[:2] if ("inst", n) != old]
+    r.shuffle(cands)
+    for new in cands[:1 if label != "last" else 2]:
+      w = replace_at(v, path, new)
+      if valid_val(w):
+        out.append(("swap-leaf", label, w))
+  conts = container_paths(v)
+  if conts:
+    path = r.choice(conts)
+    c = get_at(v, path)
+    if c[0] != "dict" and c[1]:
+      out.append(("drop-last-element", "container", replace_at(v, path, (c[0], c[1][:-1]))))
+      other = {"list": "tuple", "tuple": "list", "set": "list", "frozenset": "set", "tupleof": "list"}[c[0]]
+      w = replace_at(v, path, (other, c[1]))
+      if valid_val(w):
+        out.append(("change-container-class", "container", w))
+    elif c[0] == "dict" and c[1]:
+      (a, b) = c[1][-1]
+      out.append(("swap-dict-item", "container", replace_at(v, path, ("dict", c[1][:-1] + ((b, a),)))))
+  out = [(k, l, w) for k, l, w in out if valid_val(w) and w != v]
+  # the LAST-leaf swaps first (they are the most discriminating), then the rest
+  out.sort(key=lambda x: {"last": 0, "container": 1, "first": 2, "middle": 3}.get(x[1], 4))
+  return out[:cap]
